@@ -51,6 +51,13 @@ type Op struct {
 	//     record run.
 	FM bool `json:"fm,omitempty"`
 	FL bool `json:"fl,omitempty"`
+	// addrange: AddPublicIPRange(IP, IP2)
+	IP2 uint32 `json:"ip2,omitempty"`
+	// relrace: Cleanup releases everything at the end (so that a following stats op is comparable)
+	Cleanup bool `json:"cleanup,omitempty"`
+	// rotate: the real file logger with size-based rotation; the Cross-th record (1-based) is the
+	// one that makes the file reach MaxFileSize
+	Cross int `json:"cross,omitempty"`
 }
 type Case struct {
 	PPS   int    `json:"pps"`
@@ -58,6 +65,7 @@ type Case struct {
 	End   int    `json:"end"`
 	Log   string `json:"log"` // nil off bulk trad trad-csv
 	Buf   int    `json:"buf,omitempty"`
+	Rot   bool   `json:"rot,omitempty"`  // the rotate op creates the (file) logger itself
 	KMax  int    `json:"kmax,omitempty"` // > 0: the Manager writes into a real kernel subscriber_nat hash map of that many entries
 	Ops   []Op   `json:"ops"`
 }
@@ -102,10 +110,11 @@ type lockedBuf struct {
 }
 
 // Write: harness-side behaviours of the writer (the code under test is unchanged):
-//   yield - give up the processor before writing (a slow disk / pipe), so that other goroutines
-//           run while a flush or an AllocateNAT that logs synchronously is in progress;
-//   gate  - the next Write announces itself on entered and waits for release (a flush held
-//           mid-batch, deterministically).
+//
+//	yield - give up the processor before writing (a slow disk / pipe), so that other goroutines
+//	        run while a flush or an AllocateNAT that logs synchronously is in progress;
+//	gate  - the next Write announces itself on entered and waits for release (a flush held
+//	        mid-batch, deterministically).
 func (l *lockedBuf) Write(p []byte) (int, error) {
 	if l.fail.Load() { // a failing sink (disk full, closed pipe): nothing is written
 		return 0, fmt.Errorf("verif: log sink refuses the write")
@@ -126,6 +135,7 @@ func (l *lockedBuf) Write(p []byte) (int, error) {
 }
 
 type gate struct{ entered, release chan struct{} }
+
 func (l *lockedBuf) take() string {
 	l.mu.Lock()
 	defer l.mu.Unlock()
@@ -135,13 +145,14 @@ func (l *lockedBuf) take() string {
 }
 
 type sys struct {
-	mgr    *nat.Manager
-	lg     *nat.Logger
-	buf    *lockedBuf
-	mode   string
-	lastTS time.Time
-	kmap   *ebpf.Map
-	dead   *ebpf.Map // a closed duplicate of kmap: every syscall through it fails
+	mgr     *nat.Manager
+	lg      *nat.Logger
+	buf     *lockedBuf
+	mode    string
+	lastTS  time.Time
+	kmap    *ebpf.Map
+	dead    *ebpf.Map // a closed duplicate of kmap: every syscall through it fails
+	rotated int       // rotate op: number of rotated files found at the end
 }
 
 // mapFault swaps the Manager's subscriber_nat handle: dead for the duration of a faulted call.
@@ -228,7 +239,7 @@ func newSys(c Case) *sys {
 		s.dead = d
 		mgr.VerifInjectMaps(nat.VerifNATMaps{SubscriberNAT: m})
 	}
-	if c.Log != "nil" {
+	if c.Log != "nil" && !c.Rot {
 		format := nat.LogFormatJSON
 		if c.Log == "trad-csv" {
 			format = nat.LogFormatCSV
@@ -452,6 +463,62 @@ func run(c Case) vh.Case {
 				l = append(l, fmt.Sprintf("(%d, %s, %s)", key(p.PublicIP), Z(int64(p.Subscribers)), Z(int64(p.MaxSubscribers))))
 			}
 			op, res = "Stats", fmt.Sprintf("RStats %d %s", s.mgr.GetAllocationCount(), vh.List(l))
+		case "addrange":
+			// AddPublicIPRange as coded = AddPublicIP for every address of the range in order, stopping
+			// at the first error: the call is decomposed into the AddIP steps its return value implies
+			// (no error: all added; "failed to add IP X": everything before X added, X refused).
+			err := s.mgr.AddPublicIPRange(ip4(o.IP), ip4(o.IP2))
+			rs := s.drain()
+			after := time.Now().UTC()
+			tsok := vh.Bool(s.tsOK(rs, before, after))
+			tags["op:addrange"] = true
+			stop, stopRes := uint64(o.IP2)+1, ""
+			if err != nil {
+				msg := err.Error()
+				if strings.Contains(msg, "start IP must be") {
+					tags["addrange:inverted"] = true
+					stop = uint64(o.IP) // nothing added
+				} else if i := strings.Index(msg, "failed to add IP "); i >= 0 {
+					rest := msg[i+len("failed to add IP "):]
+					j := strings.Index(rest, ":")
+					if j < 0 {
+						panic("addrange: " + msg)
+					}
+					stop = uint64(keyS(rest[:j]))
+					stopRes = fmt.Sprintf("RErr %d", errClass(fmt.Errorf("%s", rest[j:])))
+					tags["addrange:refused-duplicate"] = true
+				} else {
+					panic("addrange: " + msg)
+				}
+			}
+			n := 0
+			for ip := uint64(o.IP); ip <= uint64(o.IP2) && ip <= stop; ip++ {
+				r := "RNone"
+				if ip == stop {
+					if stopRes == "" {
+						break
+					}
+					r = stopRes
+				}
+				l := "[]"
+				if n == 0 {
+					l = recsCoq(rs)
+				}
+				if s.kmap != nil {
+					tr = append(tr, fmt.Sprintf("(KO (AddIP %d), KOut (mo (%s) %s %s))", ip, r, l, tsok), s.kdump())
+				} else {
+					tr = append(tr, fmt.Sprintf("(AddIP %d, mo (%s) %s %s)", ip, r, l, tsok))
+				}
+				n++
+			}
+			continue
+		case "relrace":
+			op, res = s.relrace(o), "RNone"
+			tags[fmt.Sprintf("relrace:callers:%d", o.Callers)] = true
+		case "rotate":
+			op, res = s.rotate(c, o), "RNone"
+			tags[fmt.Sprintf("rotate:cross:%d", o.Cross)] = true
+			tags[fmt.Sprintf("rotate:rotated-files:%d", s.rotated)] = true
 		case "kput", "kdel": // the harness's own entries in subscriber_nat (foreign keys)
 			var kb [4]byte
 			binary.LittleEndian.PutUint32(kb[:], o.IP)
@@ -484,7 +551,7 @@ func run(c Case) vh.Case {
 			panic("unknown op " + o.K)
 		}
 		var rs []rec
-		if o.K != "conc" && o.K != "race" && o.K != "gated" && o.K != "flusher" {
+		if o.K != "conc" && o.K != "race" && o.K != "gated" && o.K != "flusher" && o.K != "relrace" && o.K != "rotate" {
 			rs = s.drain()
 		}
 		s.buf.fail.Store(false)
@@ -796,8 +863,10 @@ func genRandom(r *vh.Rng, g geom, mode string, maxOps int) Case {
 			c.Ops = append(c.Ops, Op{K: "get", IP: priv(r.Intn(nsub))})
 		case x < 88:
 			c.Ops = append(c.Ops, Op{K: "stats"})
-		case x < 92:
+		case x < 90:
 			c.Ops = append(c.Ops, Op{K: "addip", IP: pub(r.Intn(3))}) // may repeat an address already in the pool
+		case x < 92: // a range: may contain addresses already in the pool, may be inverted
+			c.Ops = append(c.Ops, Op{K: "addrange", IP: pub(r.Intn(3)), IP2: pub(r.Intn(4))})
 		default:
 			if len(held) > 0 { // re-ask for a current holder
 				c.Ops = append(c.Ops, Op{K: "alloc", IP: priv(held[r.Intn(len(held))])})
@@ -1221,6 +1290,45 @@ func main() {
 		}
 	}
 	vh.Emit(cfg, "flush", header, footer, fl, nil)
+
+	// pool building through AddPublicIPRange: duplicate / overlapping / inverted ranges, then enough
+	// subscribers to fill every entry (3 blocks per address)
+	nRg := 40
+	if cfg.Thorough() {
+		nRg = 600
+	}
+	var rg []vh.Case
+	for i := 0; i < nRg; i++ {
+		rg = append(rg, run(genRanges(r.Fork(), logModes[i%len(logModes)])))
+	}
+	vh.Emit(cfg, "ranges", header, footer, rg, nil)
+
+	// the real file logger with size-based rotation: each record index in turn crosses MaxFileSize
+	var rt []vh.Case
+	nRot := 1
+	if cfg.Thorough() {
+		nRot = 10
+	}
+	for rep := 0; rep < nRot; rep++ {
+		for _, mode := range []string{"bulk", "trad", "trad-csv"} {
+			for cross := 1; cross <= 8; cross++ {
+				rt = append(rt, run(genRotate(r.Fork(), mode, cross)))
+			}
+		}
+	}
+	vh.Emit(cfg, "rotate", header, footer, rt, map[string]interface{}{"file_logger": true})
+
+	// concurrent RELEASE callers for one subscriber (barrier-released rounds, an allocation racing in between)
+	nRel, relRounds := 16, 300
+	if cfg.Thorough() {
+		nRel = 100
+	}
+	var rr []vh.Case
+	for i := 0; i < nRel; i++ {
+		rr = append(rr, run(genRelRace(r.Fork(), relRounds, logModes[i%2], i%2 == 1)))
+	}
+	vh.Emit(rcfg, "relrace", header, footer, rr, map[string]interface{}{"sampled_schedules": true, "rounds_per_case": relRounds,
+		"gomaxprocs": runtime.GOMAXPROCS(0)})
 
 	// the Manager writing into a real kernel subscriber_nat map (roomy: the map mirrors the table
 	// after every op; tiny: the update inside AllocateNAT fails at chosen points)
